@@ -98,6 +98,10 @@ def judge(ctx, program):
                     msgs.append('block %s raised Concurrent%r, expected exactly the child failures %r (identity, order, once)' % (
                         name, [describe(x) for x in ch], [describe(x) for x in val]))
         if isinstance(got, Concurrent):
+            ids = [id(c) for c in got.children]
+            if len(set(ids)) != len(ids):
+                msgs.append('Concurrent of block %s carries the same exception object more than once: %r' % (
+                    name, [describe(c) for c in got.children]))
             for c in got.children:
                 if isinstance(c, SUPPRESSED) or isinstance(c, Interrupt) or c is body:
                     msgs.append('Concurrent of block %s contains %s' % (name, describe(c)))
